@@ -4,22 +4,28 @@
 import sys, os, json, shutil, re
 prop, k, needs = sys.argv[1], sys.argv[2], sys.argv[3]
 src = '/tmp/out-%s/%s' % (prop, k)
-dst = '/verif/seeded/%s-%s' % (prop, k)
+rnd = ''
+if prop.endswith('b'):          # second independent round: /tmp/out-C02b/m1 -> seeded/C02-r4m1
+    rnd, prop_dir, prop = 'r4', prop, prop[:-1]
+    k_id = rnd + k
+else:
+    prop_dir, k_id = prop, k
+dst = '/verif/seeded/%s-%s' % (prop, k_id)
 os.makedirs(dst, exist_ok=True)
 for f in ('patch.diff', 'demo.diff', 'notes.md'):
     shutil.copy(os.path.join(src, f), dst)
 conf, full = '(not run)', '(not run)'
-if os.path.exists('/tmp/confirm-%s.log' % prop):
-    for l in open('/tmp/confirm-%s.log' % prop):
+if os.path.exists('/tmp/confirm-%s.log' % prop_dir):
+    for l in open('/tmp/confirm-%s.log' % prop_dir):
         if l.startswith(src + ' | patch-only'):
             conf = l.split('|', 1)[1].strip()
         elif l.startswith(src + ' |') and 'Summary' in l:
             m = re.search(r'Summary \[\s*[\d.]+s\] (.*?)\s{2,}', l)
             full = (m.group(1) if m else l.strip()) + ' (the one failure is connect_handles_tls, which fails on the unmodified tree too: needs DNS)'
-meta = dict(id='%s-%s' % (prop, k), property=prop, needs_to_manifest=needs,
+meta = dict(id='%s-%s' % (prop, k_id), property=prop, needs_to_manifest=needs,
             author='independent sub-agent given only the property text and a scratch worktree',
             confirmed_by_me=conf, full_baseline_suite_with_patch=full,
             confirm_cmd='tools/confirm_mutant.sh + tools/full_suite_mutant.sh in a scratch worktree',
-            check_cmd='tools/run_seeded.py %s-%s' % (prop, k))
+            check_cmd='tools/run_seeded.py %s-%s' % (prop, k_id))
 json.dump(meta, open(os.path.join(dst, 'meta.json'), 'w'), indent=1)
 print('stored', dst, conf[:80], '|', full[:60])
